@@ -377,3 +377,53 @@ pub fn crash_append<T: Q, const N: usize, const M: usize, const SEQ: u32>(tables
     let other_ok = crashsafe(&other);
     finish(&q, other_ok);
 }
+
+// ------------------------------------------------------------------------------------
+// continuations from the state a caught panic inside the predicate of `retain*` leaves
+// behind (family SAFE): tables and counter of N entries, mutually consistent, the map `D`
+// entries short. Such a queue may answer wrongly and may panic (`unwrap` of a missing
+// entry) -- C10 allows both -- but no unchecked access may leave its object. The harness
+// asserts nothing itself; the runner accepts failed *panic* checks of the crate and counts
+// every other failed check (dereference, bounds of an unchecked access, arithmetic).
+// ------------------------------------------------------------------------------------
+pub fn shortmap<T: Q, const N: usize, const D: usize>(op: u8, tables: Tables) {
+    let g = crate::gen::ghost::<N>(T::DOUBLE, Pre::CrashSafe, tables);
+    let mut q = crate::gen::build_short::<T, N>(&g, N - D);
+    let k = tables.pick_key();
+    let p = sym::u8();
+    let verdict = sym::bool();
+    match op {
+        20 => {
+            let _ = q.peek_hi().map(|(i, _)| i.key);
+            if T::DOUBLE {
+                let _ = q.peek_lo().map(|(i, _)| i.key);
+                let _ = q.peek_lo_mut().map(|(i, _)| i.key);
+            }
+            let _ = q.peek_hi_mut().map(|(i, _)| i.key);
+            let _ = q.get(&k).map(|(i, _)| i.key);
+            let _ = q.get_mut(&k).map(|(i, _)| i.key);
+            let _ = q.len();
+        }
+        21 => {
+            q.clear();
+            q.push(Item::new(k, 0), Pr(p));
+        }
+        22 => {
+            let mut d = q.drain_q();
+            let _ = d.next();
+            drop(d);
+            q.push(Item::new(k, 0), Pr(p));
+        }
+        23 => {
+            // (a symbolic number of survivors would make the table lengths symbolic)
+            q.retain_mut(|_, x| {
+                x.0 = p;
+                true
+            });
+        }
+        _ => run_op(&mut q, op, k, p, verdict),
+    }
+    cover!(true, "reach: end of harness");
+    // dropping the queue is a use as well
+    drop(q);
+}
